@@ -184,6 +184,24 @@ struct LTIState : public LTIStateModel {
 struct ZeroInit : public ParticleSetInitialization {
     bool initialize(ParticleSet& p) override { p.state().setZero(); p.mean().setZero(); return true; }
 };
+// a prior that is temporarily unavailable: reports failure and touches nothing
+struct RefusePrior : public ParticleSetInitialization {
+    bool initialize(ParticleSet&) override { return false; }
+};
+// the prior of a ResamplingWithPrior by name: zero (always succeeds), refuse (always fails), grid (the shipped
+// InitSurveillanceAreaGrid gx x gy: succeeds only on gx*gy particles with 4-row states)
+static std::unique_ptr<ParticleSetInitialization> make_prior(const vf::Case& c) {
+    std::string pr = c.m("prior", "zero");
+    if (pr == "refuse") return std::unique_ptr<ParticleSetInitialization>(new RefusePrior());
+    if (pr == "grid") return std::unique_ptr<ParticleSetInitialization>(new InitSurveillanceAreaGrid(0.0, 10.0, -2.0, 6.0, (unsigned)c.mi("gx"), (unsigned)c.mi("gy")));
+    return std::unique_ptr<ParticleSetInitialization>(new ZeroInit());
+}
+// parents that are neither -1 (drawn from the prior) nor the index of an input particle
+static long invalid_parents(const VectorXi& parents, long n) {
+    long bad = 0;
+    for (long i = 0; i < parents.size(); i++) if (!(parents(i) == -1 || (parents(i) >= 0 && parents(i) < n))) bad++;
+    return bad;
+}
 struct SensorAccess : public SimulatedLinearSensor {
     using SimulatedLinearSensor::SimulatedLinearSensor;
     std::pair<bool, MatrixXd> noise(int num) const { return getNoiseSample(num); }
@@ -422,9 +440,11 @@ static void k_resprior(const vf::Case& c) {
     Layout lc = lay(c, "c");
     ParticleSet cor = make_particles(lc, c.mi("n")), res = make_particles(lc, c.mi("n"), 2);
     VectorXi parents(c.mi("np"));
-    ResamplingWithPrior r(std::unique_ptr<ParticleSetInitialization>(new ZeroInit()), std::stod(c.m("ratio")), 11);
+    parents.setConstant(-7);
+    ResamplingWithPrior r(make_prior(c), std::stod(c.m("ratio")), 11);
     E e("ResamplingWithPrior::resample");
     r.resample(cor, res, parents); ob_particles(res);
+    if (c.m("prior", "zero") != "zero") ob(invalid_parents(parents, c.mi("n")));
 }
 
 static void k_density(const vf::Case& c) {
@@ -607,16 +627,16 @@ static void k_objseq(const vf::Case& c) {
     } else if (what == "resample" || what == "resprior") {
         std::unique_ptr<Resampling> r;
         if (what == "resample") r.reset(new Resampling(11));
-        else r.reset(new ResamplingWithPrior(std::unique_ptr<ParticleSetInitialization>(new ZeroInit()), std::stod(c.m("ratio")), 11));
+        else r.reset(new ResamplingWithPrior(make_prior(c), std::stod(c.m("ratio")), 11));
         const char* le = what == "resample" ? "Resampling::resample" : "ResamplingWithPrior::resample";
         long k = 0;
         for (auto& t : steps) {
             std::vector<long> a = ints_of(t);          // n : L : C : q
             Layout l{a.at(1), a.at(2), a.at(3) != 0};
             ParticleSet cor = make_particles(l, a.at(0), k), res = make_particles(l, a.at(0), k + 2); k++;
-            VectorXi parents(a.at(0));
+            VectorXi parents(a.at(0)); parents.setConstant(-7);
             if (t[0] == 'n') { E e("Resampling::neff"); double ne = r->neff(cor.weight()); ob(ne > 0.0 ? 1 : 0); continue; }
-            E e(le); r->resample(cor, res, parents); ob_particles(res);
+            E e(le); r->resample(cor, res, parents); ob_particles(res); ob(invalid_parents(parents, a.at(0)));
         }
     } else if (what == "wna") {
         long D = c.mi("D"), d = 2 * D;
